@@ -203,6 +203,8 @@ impl<'a, C> ParseState<'a, C> {
         self.env = ParseState::_build_env(input);
         self.len_env = self.env.len();
         self.head = head;
+        // 清空「中间解析结果」：上一输入（不完整/出错时）遗留的条目不得带入下一输入
+        self.mid_result = MidParseResult::new();
     }
 
     /// 重置状态
